@@ -12,7 +12,7 @@ BUDGET = {"quick": 500, "thorough": 8000}
 TECHNIQUE = 'Hypothesis-generated (polynomial, variable designations, option setting) vs exact formal derivative; linearity/product-rule/mixed-partials metamorphic relations'
 LEVEL_TEXT = "derivative/gradient/hessian on generated arrays under all 16 retain/sort settings with every designation form are compared with the model's formal partial derivatives and the stated result shapes."
 RULE = (
-    "polynomial arrays (0-d..3-d, 1-4 names, 0-6 terms, exponents <= 3, int/float/complex and (5%) int8/uint8/int16/"
+    "polynomial arrays (0-d..3-d, 1-4 names, 0-6 terms, exponents <= 3, int/float/complex and (5%) int8/uint8/int16/uint16/uint32/int32/"
     "bool storage with values at the limits of the type, including "
     "constants, the zero polynomial, redundant zero terms and unused names) x 1-3 differentiation "
     "variables each designated as name / positional index / p.indeterminants[i] / numpoly.symbols(name) / "
@@ -36,11 +36,12 @@ FLAGS = ["retain_names", "retain_coefficients", "sort_graded", "sort_reverse"]
 def case_st(draw):
     names = draw(gen.names_st(max_size=4))
     desc = draw(gen.poly_desc(names=names, max_terms=6, max_exp=3, max_ndim=3))
-    if desc["kind"] == "i" and draw(st.integers(0, 2)) == 0:
+    if desc["kind"] == "i" and draw(st.booleans()):
         # narrow integer storage with values near its limits: exponent*coefficient no longer fits
         # the storage dtype, the formal derivative must still be exact
-        desc["dtype"] = draw(st.sampled_from(["int8", "uint8", "int16", "bool"]))
-        lo, hi = {"int8": (-128, 127), "uint8": (0, 255), "int16": (-300, 300), "bool": (0, 1)}[desc["dtype"]]
+        desc["dtype"] = draw(st.sampled_from(["int8", "uint8", "int16", "bool", "uint16", "uint32", "uint32", "uint32", "int32"]))
+        lo, hi = {"int8": (-128, 127), "uint8": (0, 255), "int16": (-300, 300), "bool": (0, 1), "uint16": (0, 65535),
+                  "uint32": (0, 2 ** 32 - 1), "int32": (-2 ** 31, 2 ** 31 - 1)}[desc["dtype"]]
         if desc["dtype"] == "bool":
             desc["kind"] = "b"
         size = gen.size_of(tuple(desc["shape"]))
@@ -48,7 +49,8 @@ def case_st(draw):
             t[1] = draw(st.lists(st.sampled_from([0, 1, hi, lo, hi // 2, 100 if hi >= 100 else 1]),
                                  min_size=size, max_size=size))
         desc.pop("dtype") if desc["kind"] == "b" else None
-        if draw(st.integers(0, 2)) == 0:
+        if desc.get("dtype") not in ("uint16", "uint32", "int32") and draw(st.integers(0, 2)) == 0:
+            # (the wider narrow types at their limits times such factors would leave 64 bits altogether)
             # ... and with exponents whose repeated factors leave 32 bits: e*(e-1) > 2**32 from e = 65537 on,
             # e*(e-1)*(e-2) already for e = 2000
             scale = draw(st.sampled_from([700, 20000, 33000]))
